@@ -45,6 +45,9 @@ def check(run):
             for j, t in enumerate(tasks[:2]):
                 cases.append({'backend': ['file', 'redis', 'dict', 'filepack'][(pi + j) % 4], 'nworkers': 2, 'sched_seed': rng.randrange(10 ** 9), 'policy': ['hold', 0, t, 200],
                               'operator': [['cleanup-keep-locks', 'cleanup-failed-only'][j % 2], 0, t]})
+            # `jug pack` started by somebody else while the workers run, and dying just before its new pack file is in place: what was finished stays finished
+            if P['n'] >= 3:
+                cases.append({'backend': 'file', 'nworkers': 2, 'sched_seed': rng.randrange(10 ** 9), 'policy': ['hold', 0, max(tasks), 200], 'operator': ['pack-interrupted', 0, max(tasks)]})
             # late joiner / early quitter
             cases.append({'backend': rng.choice(['file', 'redis']), 'nworkers': 3, 'sched_seed': rng.randrange(10 ** 9), 'late': {2: rng.randint(5, 60)}})
             cases.append({'backend': rng.choice(['file', 'redis']), 'nworkers': 3, 'sched_seed': rng.randrange(10 ** 9), 'max_tasks': {0: 1}})
